@@ -1007,7 +1007,7 @@ mod rules {
             });
         }
         // C14: syllables in typewriter order (option on) vs Unicode order (option off)
-        let cons = ["t", "u", "twi", "tr"]; // ক র ক্ত ক + ro-fola
+        let cons = ["t", "u", "twi", "tr", "uy", "ty"]; // ক র ক্ত ক + ro-fola, র + zo-fola (joiner), ক + zo-fola
         let signs = [("e", "e"), ("d", "d"), ("f", "f"), ("dp", "m"), ("dg", "g")]; // (typewriter tail handled below)
         for setting in 0..8u8 {
             let (vowel, chandra, trad) = (setting & 1 != 0, setting & 2 != 0, setting & 4 != 0);
